@@ -39,21 +39,32 @@ Record member := {
 Record shape := { s_base_exposed : bool; s_sub_exposed : bool; s_members : list member }.
 
 (* deviations of the code from the property, as switches (false = the property's behaviour) *)
+Inductive acc_tag := TGet | TSet.
+(* how handleRequest hands the arguments of an attribute read/write request to _get/_set_exposed_property_value *)
+Inductive attr_form :=
+| AFIndexed      (* by index: vargs[0] (, vargs[1]) — surplus arguments never reach the helpers *)
+| AFStrict       (* by index, after checking the argument count: surplus positional arguments make the request an error *)
+| AFStar         (* *vargs: a surplus positional argument binds the helpers' trailing only_exposed parameter *)
+| AFStarKw.      (* *vargs, **kwargs: ... and so does a keyword argument only_exposed=... *)
+
 Record quirks := {
   q_call_runs_getter : bool;        (* fixed in 88fe348: _get_attribute did getattr(obj, name) on a property *)
   q_attr_private_unchecked : bool;  (* fixed: __getattr__/__setattr__ requests skipped the privacy test *)
   q_helper_served : bool;           (* open: a callable instance of an @expose'd class stored in an attribute is called *)
   q_hook_getattribute : bool;       (* open: getattr(obj, name) in the gate runs the class's own __getattribute__ ... *)
-  q_hook_getattr : bool             (* ... and, when the name does not exist, its __getattr__ *)
+  q_hook_getattr : bool;            (* ... and, when the name does not exist, its __getattr__ *)
+  q_get_form : attr_form;           (* call form of the attribute read ... *)
+  q_set_form : attr_form            (* ... and of the attribute write; /repo: AFIndexed; AFStar/AFStarKw are seeded change C02_6 *)
 }.
+Definition form_of (q : quirks) (a : acc_tag) : attr_form := match a with TGet => q_get_form q | TSet => q_set_form q end.
 Definition hook_flag (q : quirks) (h : hook) : bool :=
   match h with HGetattribute => q_hook_getattribute q | HGetattr => q_hook_getattr q end.
 Definition hooks_on (q : quirks) : bool := q_hook_getattribute q || q_hook_getattr q.
 Definition quirks_none :=
-  {| q_call_runs_getter := false; q_attr_private_unchecked := false; q_helper_served := false; q_hook_getattribute := false; q_hook_getattr := false |}.
+  {| q_call_runs_getter := false; q_attr_private_unchecked := false; q_helper_served := false; q_hook_getattribute := false; q_hook_getattr := false; q_get_form := AFIndexed; q_set_form := AFIndexed |}.
 (* the code as it is today (after the two repairs) *)
 Definition quirks_asis :=
-  {| q_call_runs_getter := false; q_attr_private_unchecked := false; q_helper_served := true; q_hook_getattribute := true; q_hook_getattr := true |}.
+  {| q_call_runs_getter := false; q_attr_private_unchecked := false; q_helper_served := true; q_hook_getattribute := true; q_hook_getattr := true; q_get_form := AFIndexed; q_set_form := AFIndexed |}.
 
 Inductive acc := ACall | AGet | ASet | AHelper | AHook.
 Definition acc_eqb (a b : acc) : bool :=
@@ -65,7 +76,34 @@ Definition effect := (member * acc)%type.
 
 Inductive reqname := NStr (t : text) | NOther.    (* NOther: any value that is not a string *)
 Inductive rkind := RCall | RBatch | RGet | RSet.
-Record request := { r_kind : rkind; r_oneway : bool; r_names : list reqname }.
+(* the shape of a request beyond the member name(s): an attribute read carries (name, surplus...), an attribute write
+   (name, value, surplus...), possibly keyword arguments; only the truthiness of surplus values can matter.
+   r_names holds the effective name(s): for attribute requests what vargs[0] yields (NOther when it is not a string);
+   r_missing: the positional arguments needed by the request kind are not all there. *)
+Inductive argval := AFalsy | ATruthy.
+Definition truthy (v : argval) : bool := match v with ATruthy => true | AFalsy => false end.
+Record request := { r_kind : rkind; r_oneway : bool; r_names : list reqname;
+                    r_missing : bool; r_surplus : list argval; r_kwargs : list (text * argval) }.
+(* the well-formed request with no surplus *)
+Definition mkreq (k : rkind) (ow : bool) (names : list reqname) : request :=
+  {| r_kind := k; r_oneway := ow; r_names := names; r_missing := false; r_surplus := []; r_kwargs := [] |}.
+Definition strip_surplus (r : request) : request :=
+  {| r_kind := r_kind r; r_oneway := r_oneway r; r_names := r_names r; r_missing := r_missing r; r_surplus := []; r_kwargs := [] |}.
+Definition only_exposed_text : text := [111;110;108;121;95;101;120;112;111;115;101;100]%N.
+(* the value the helpers' only_exposed parameter receives; None = the call itself fails (TypeError) *)
+Definition bind_only_exposed (f : attr_form) (r : request) : option bool :=
+  match f with
+  | AFIndexed => Some true
+  | AFStrict => match r_surplus r with [] => Some true | _ => None end
+  | AFStar => match r_surplus r with [] => Some true | [v] => Some (truthy v) | _ => None end
+  | AFStarKw =>
+      match r_surplus r, r_kwargs r with
+      | [], [] => Some true
+      | [v], [] => Some (truthy v)
+      | [], [(k, v)] => if text_eqb k only_exposed_text then Some (truthy v) else None
+      | _, _ => None
+      end
+  end.
 Inductive reply := RepResult | RepError | RepNone.
 
 (* ---------- Python attribute resolution on the instance / on its class ---------- *)
@@ -188,7 +226,7 @@ Fixpoint serve_batch (q : quirks) (s : shape) (names : list reqname) : list effe
 
 (* _get_exposed_property_value / _set_exposed_property_value: lookup on the class (no instance hook runs);
    the first accessor's mark decides, whichever accessor is asked for *)
-Definition serve_attr (q : quirks) (s : shape) (a : acc) (n : reqname) : list effect * bool :=
+Definition serve_attr_oe (q : quirks) (s : shape) (a : acc) (n : reqname) (only_exposed : bool) : list effect * bool :=
   match n with
   | NOther => ([], false)
   | NStr t =>
@@ -197,7 +235,7 @@ Definition serve_attr (q : quirks) (s : shape) (a : acc) (n : reqname) : list ef
     | Some m =>
       match m_kind m with
       | KProp g st _ =>
-        if (match a with AGet => present g | ASet => present st | _ => false end) && exposed s m
+        if (match a with AGet => present g | ASet => present st | _ => false end) && (negb only_exposed || exposed s m)
         then ([(m, a)], true) else ([], false)
       | _ => ([], false)
       end
@@ -205,15 +243,26 @@ Definition serve_attr (q : quirks) (s : shape) (a : acc) (n : reqname) : list ef
     end
   end.
 
+Definition serve_attr (q : quirks) (s : shape) (a : acc) (n : reqname) : list effect * bool :=
+  serve_attr_oe q s a n true.
+
 Definition first_name (r : request) : reqname :=
   match r_names r with n :: _ => n | [] => NOther end.
+
+(* an attribute read/write: too few arguments -> error; otherwise the helper is called in the handler's form *)
+Definition attr_request (q : quirks) (s : shape) (a : acc) (r : request) : list effect * bool :=
+  if r_missing r then ([], false) else
+  match bind_only_exposed (form_of q (match a with ASet => TSet | _ => TGet end)) r with
+  | None => ([], false)
+  | Some oe => serve_attr_oe q s a (first_name r) oe
+  end.
 
 Definition serve_core (q : quirks) (s : shape) (r : request) : list effect * bool :=
   match r_kind r with
   | RCall => serve_call q s (first_name r)
   | RBatch => serve_batch q s (r_names r)
-  | RGet => serve_attr q s AGet (first_name r)
-  | RSet => serve_attr q s ASet (first_name r)
+  | RGet => attr_request q s AGet r
+  | RSet => attr_request q s ASet r
   end.
 
 Definition serve (q : quirks) (s : shape) (r : request) : list effect * reply :=
@@ -387,7 +436,11 @@ Definition allowed (q : quirks) (s : shape) (k : rkind) (names : list reqname) (
   (q_helper_served q = true /\ a = AHelper /\ helper_boundary s k names m) \/
   (hooks_on q = true /\ a = AHook /\ hook_boundary s k names m).
 (* the two repaired deviations stay repaired *)
-Definition repaired (q : quirks) : Prop := q_call_runs_getter q = false /\ q_attr_private_unchecked q = false.
+Definition safe_form (f : attr_form) : Prop := f = AFIndexed \/ f = AFStrict.
+Definition repaired (q : quirks) : Prop :=
+  q_call_runs_getter q = false /\ q_attr_private_unchecked q = false /\ safe_form (q_get_form q) /\ safe_form (q_set_form q).
+(* ... and attribute-request arguments are taken by index without an argument-count check (today's code) *)
+Definition indexed (q : quirks) : Prop := q_get_form q = AFIndexed /\ q_set_form q = AFIndexed.
 End Spec.
 
 (* registered objects: objs[o] = index of the class of object o *)
@@ -395,10 +448,12 @@ Definition class_of (objs : list nat) (o : nat) : nat := nth o objs 0.
 Definition shape_of (classes : list shape) (objs : list nat) (o : nat) : shape := nth (class_of objs o) classes empty_shape.
 
 (* ---------- recorded witnesses ---------- *)
-Definition q_getter_only := {| q_call_runs_getter := true; q_attr_private_unchecked := false; q_helper_served := false; q_hook_getattribute := false; q_hook_getattr := false |}.
-Definition q_private_only := {| q_call_runs_getter := false; q_attr_private_unchecked := true; q_helper_served := false; q_hook_getattribute := false; q_hook_getattr := false |}.
-Definition q_helper_only := {| q_call_runs_getter := false; q_attr_private_unchecked := false; q_helper_served := true; q_hook_getattribute := false; q_hook_getattr := false |}.
-Definition q_hooks_only := {| q_call_runs_getter := false; q_attr_private_unchecked := false; q_helper_served := false; q_hook_getattribute := true; q_hook_getattr := true |}.
+Definition q_getter_only := {| q_call_runs_getter := true; q_attr_private_unchecked := false; q_helper_served := false; q_hook_getattribute := false; q_hook_getattr := false; q_get_form := AFIndexed; q_set_form := AFIndexed |}.
+Definition q_private_only := {| q_call_runs_getter := false; q_attr_private_unchecked := true; q_helper_served := false; q_hook_getattribute := false; q_hook_getattr := false; q_get_form := AFIndexed; q_set_form := AFIndexed |}.
+Definition q_helper_only := {| q_call_runs_getter := false; q_attr_private_unchecked := false; q_helper_served := true; q_hook_getattribute := false; q_hook_getattr := false; q_get_form := AFIndexed; q_set_form := AFIndexed |}.
+Definition q_star_only := {| q_call_runs_getter := false; q_attr_private_unchecked := false; q_helper_served := false;
+                           q_hook_getattribute := false; q_hook_getattr := false; q_get_form := AFStar; q_set_form := AFStar |}.
+Definition q_hooks_only := {| q_call_runs_getter := false; q_attr_private_unchecked := false; q_helper_served := false; q_hook_getattribute := true; q_hook_getattr := true; q_get_form := AFIndexed; q_set_form := AFIndexed |}.
 (* class T: @expose def ping(self) ...; @property def secret(self) ...    — request: call "secret" *)
 Definition w_ping : member :=
   {| m_id := 0; m_name := [112;105;110;103]%N; m_kind := KMethod; m_in := Sub; m_mark := true;
@@ -407,13 +462,13 @@ Definition w_secret : member :=
   {| m_id := 1; m_name := [115;101;99;114;101;116]%N; m_kind := KProp (Some false) (Some false) None; m_in := Sub; m_mark := false;
      m_fname := [115;101;99;114;101;116]%N; m_oneway := false |}.
 Definition w1_shape := {| s_base_exposed := false; s_sub_exposed := false; s_members := [w_ping; w_secret] |}.
-Definition w1_request := {| r_kind := RCall; r_oneway := false; r_names := [NStr (m_name w_secret)] |}.
+Definition w1_request := mkreq RCall false [NStr (m_name w_secret)].
 (* class T: _hidden = expose(property(visible, ...))   — request: __getattr__ "_hidden" *)
 Definition w_hidden : member :=
   {| m_id := 0; m_name := [95;104;105;100;100;101;110]%N; m_kind := KProp (Some false) (Some false) None; m_in := Sub; m_mark := true;
      m_fname := [118;105;115;105;98;108;101]%N; m_oneway := false |}.
 Definition w2_shape := {| s_base_exposed := false; s_sub_exposed := false; s_members := [w_hidden] |}.
-Definition w2_request := {| r_kind := RGet; r_oneway := false; r_names := [NStr (m_name w_hidden)] |}.
+Definition w2_request := mkreq RGet false [NStr (m_name w_hidden)].
 (* a shape used for non-vacuity examples: exposed base class with a oneway method, own-marked getter-only property *)
 Definition w_run : member :=
   {| m_id := 2; m_name := [114;117;110]%N; m_kind := KMethod; m_in := Base; m_mark := false;
@@ -427,15 +482,18 @@ Definition w_tool : member :=
   {| m_id := 1; m_name := [116;111;111;108]%N; m_kind := KHelper true true; m_in := Sub; m_mark := false;
      m_fname := [116;111;111;108]%N; m_oneway := false |}.
 Definition w4_shape := {| s_base_exposed := false; s_sub_exposed := false; s_members := [w_ping; w_tool] |}.
-Definition w4_request := {| r_kind := RCall; r_oneway := false; r_names := [NStr (m_name w_tool)] |}.
+Definition w4_request := mkreq RCall false [NStr (m_name w_tool)].
 (* class T: @expose def ping ...; def __getattr__(self, name) ...   — request: call "anything" *)
 Definition w_getattr : member :=
   {| m_id := 1; m_name := [95;95;103;101;116;97;116;116;114;95;95]%N; m_kind := KHook HGetattr; m_in := Sub; m_mark := false;
      m_fname := [95;95;103;101;116;97;116;116;114;95;95]%N; m_oneway := false |}.
 Definition w5_shape := {| s_base_exposed := false; s_sub_exposed := false; s_members := [w_ping; w_getattr] |}.
-Definition w5_request := {| r_kind := RCall; r_oneway := false; r_names := [NStr [97;110;121]%N] |}.
+Definition w5_request := mkreq RCall false [NStr [97;110;121]%N].
 (* a property exposed only on its setter function: @property def lvl ...; @lvl.setter @expose def lvl(self, v) ... *)
 Definition w_lvl : member :=
   {| m_id := 0; m_name := [108;118;108]%N; m_kind := KProp (Some false) (Some true) None; m_in := Sub; m_mark := false;
      m_fname := [108;118;108]%N; m_oneway := false |}.
 Definition w6_shape := {| s_base_exposed := false; s_sub_exposed := false; s_members := [w_lvl] |}.
+(* __getattr__ ("secret", False) on w1_shape: with *vargs the surplus False switches the exposure test off *)
+Definition w7_request : request :=
+  {| r_kind := RGet; r_oneway := false; r_names := [NStr (m_name w_secret)]; r_missing := false; r_surplus := [AFalsy]; r_kwargs := [] |}.
